@@ -437,3 +437,210 @@ Proof.
     apply isort_In, filter_In in Hx as [Hx _]. apply filter_In in Hx as [_ Hx].
     apply orb_true_iff in E1. apply andb_true_iff in Hx as [X1 X2]. destruct E1 as [E1 | E1]; rewrite E1 in *; discriminate.
 Qed.
+
+(* ------------------------------------------------------------------ insertion sort: sorted; the mount order *)
+
+Section Sorted.
+  Context {A : Type} (lt : A -> A -> bool).
+  Hypothesis asym : forall a b, lt a b = true -> lt b a = false.
+  Hypothesis negtrans : forall a b c, lt a b = false -> lt b c = false -> lt a c = false.
+
+  (* descending: nothing is less than anything after it *)
+  Fixpoint desc (l : list A) : Prop :=
+    match l with [] => True | y :: r => Forall (fun z => lt y z = false) r /\ desc r end.
+
+  Lemma ins_rev_desc : forall x racc, desc racc -> desc (ins_rev lt x racc).
+  Proof.
+    induction racc as [|y r IH]; intros D; cbn [ins_rev]; [cbn; auto|].
+    destruct D as [F D]. destruct (lt x y) eqn:E.
+    - cbn [desc]. split; [|apply IH; exact D].
+      eapply Permutation_Forall; [apply Permutation_sym, ins_rev_perm|].
+      constructor; [apply asym; exact E | exact F].
+    - cbn [desc]. split; [|split; assumption].
+      constructor; [exact E|]. rewrite Forall_forall in *. intros z Hz. eapply negtrans; [exact E | apply F; exact Hz].
+  Qed.
+
+  Lemma fold_ins_desc : forall l racc, desc racc -> desc (fold_left (fun racc x => ins_rev lt x racc) l racc).
+  Proof. induction l as [|x l IH]; intros racc D; cbn [fold_left]; [exact D | apply IH, ins_rev_desc, D]. Qed.
+
+  Lemma desc_precedes : forall l a b, desc l -> precedes a b l -> lt a b = false.
+  Proof.
+    induction l as [|y r IH]; intros a b D (l1 & l2 & l3 & E).
+    - destruct l1; discriminate.
+    - destruct D as [F D]. destruct l1 as [|z l1]; cbn [app] in E; inversion E; subst.
+      + rewrite Forall_forall in F. apply F. apply in_or_app. right. left. reflexivity.
+      + apply IH; [exact D|]. exists l1, l2, l3. reflexivity.
+  Qed.
+
+  Lemma in_two : forall (l : list A) a b, In a l -> In b l -> a = b \/ precedes a b l \/ precedes b a l.
+  Proof.
+    induction l as [|y r IH]; intros a b Ha Hb; [destruct Ha|].
+    destruct Ha as [-> | Ha]; destruct Hb as [-> | Hb].
+    - left. reflexivity.
+    - right. left. apply in_split in Hb as (r1 & r2 & ->). exists [], r1, r2. reflexivity.
+    - right. right. apply in_split in Ha as (r1 & r2 & ->). exists [], r1, r2. reflexivity.
+    - destruct (IH a b Ha Hb) as [E | [(l1 & l2 & l3 & ->) | (l1 & l2 & l3 & ->)]]; [left; exact E | right; left | right; right];
+        exists (y :: l1), l2, l3; reflexivity.
+  Qed.
+
+  (* in the sorted list, a strictly smaller element comes first *)
+  Theorem isort_precedes : forall l a b, In a l -> In b l -> lt a b = true -> precedes a b (isort lt l).
+  Proof.
+    intros l a b Ha Hb E.
+    assert (D : desc (fold_left (fun racc x => ins_rev lt x racc) l [])) by (apply fold_ins_desc; exact I).
+    destruct (in_two (isort lt l) a b) as [<- | [P | P]]; try (apply isort_In; assumption).
+    - rewrite (asym _ _ E) in E. discriminate.
+    - exact P.
+    - exfalso. unfold isort in P. apply precedes_rev in P. rewrite rev_involutive in P.
+      rewrite (desc_precedes _ _ _ D P) in E. discriminate.
+  Qed.
+End Sorted.
+
+(* ---- byOriginAndMountPoint.Less is rank, then key *)
+Lemma blt_irrefl : forall a, blt a a = false.
+Proof. induction a as [|x a IH]; [reflexivity|]. cbn [blt]. rewrite N.ltb_irrefl. exact IH. Qed.
+
+Lemma blt_asym : forall a b, blt a b = true -> blt b a = false.
+Proof.
+  induction a as [|x a IH]; intros [|y b] H; cbn [blt] in *; try discriminate; try reflexivity.
+  destruct (x <? y) eqn:E1.
+  - assert (y <? x = false) as -> by lia. replace (x <? y) with true. reflexivity.
+  - destruct (y <? x) eqn:E2; [discriminate|]. apply IH. exact H.
+Qed.
+
+Lemma blt_negtrans : forall a b c, blt a b = false -> blt b c = false -> blt a c = false.
+Proof.
+  induction a as [|x a IH]; intros [|y b] [|z c] H1 H2; cbn [blt] in *; try discriminate; try reflexivity.
+  destruct (x <? y) eqn:E1; [discriminate|].
+  destruct (y <? z) eqn:E2; [discriminate|].
+  destruct (y <? x) eqn:E3.
+  - assert (x <? z = false) as -> by lia. assert (z <? x = true) as -> by lia. reflexivity.
+  - destruct (z <? y) eqn:E4.
+    + assert (x <? z = false) as -> by lia. assert (z <? x = true) as -> by lia. reflexivity.
+    + assert (x <? z = false) as -> by lia. assert (z <? x = false) as -> by lia. eapply IH; eassumption.
+Qed.
+
+Definition rank (e : entry) : N := if is_overname e then 0 else if is_layout e then 2 else 1.
+
+Lemma overname_not_layout : forall e, is_overname e = true -> is_layout e = false.
+Proof.
+  intros e H. unfold is_overname, is_layout in *. apply beq_eq in H. rewrite H. reflexivity.
+Qed.
+
+Lemma less_origin_rank : forall a b,
+  less_origin a b = (rank a <? rank b) || ((rank a =? rank b) && dir_lt a b).
+Proof.
+  intros a b. unfold less_origin, rank.
+  destruct (beq (x_origin a) (x_origin b)) eqn:E; cbn [negb].
+  - apply beq_eq in E. unfold is_overname, is_layout. rewrite E.
+    destruct (beq (x_origin b) s_overname); [reflexivity|]. destruct (beq (x_origin b) s_layout); reflexivity.
+  - destruct (is_overname a) eqn:Oa.
+    + destruct (is_overname b) eqn:Ob.
+      * exfalso. unfold is_overname in *. apply beq_eq in Oa, Ob. rewrite Oa, Ob, beq_refl in E. discriminate.
+      * destruct (is_layout b); reflexivity.
+    + destruct (is_overname b) eqn:Ob; [destruct (is_layout a); reflexivity|].
+      destruct (is_layout a) eqn:La.
+      * destruct (is_layout b) eqn:Lb; [|reflexivity].
+        exfalso. unfold is_layout in *. apply beq_eq in La, Lb. rewrite La, Lb, beq_refl in E. discriminate.
+      * destruct (is_layout b); reflexivity.
+Qed.
+
+Lemma less_origin_asym : forall a b, less_origin a b = true -> less_origin b a = false.
+Proof.
+  intros a b. rewrite !less_origin_rank. unfold dir_lt. intro H.
+  destruct (rank a <? rank b) eqn:E1.
+  - assert (rank b <? rank a = false) as -> by lia. assert (rank b =? rank a = false) as -> by lia. reflexivity.
+  - cbn [orb] in H. apply andb_true_iff in H as [H1 H2].
+    assert (rank b <? rank a = false) as -> by lia. rewrite (blt_asym _ _ H2). apply andb_false_r.
+Qed.
+
+Lemma less_origin_negtrans : forall a b c, less_origin a b = false -> less_origin b c = false -> less_origin a c = false.
+Proof.
+  intros a b c. rewrite !less_origin_rank. unfold dir_lt. intros H1 H2.
+  apply orb_false_iff in H1 as [A1 A2]. apply orb_false_iff in H2 as [B1 B2].
+  apply orb_false_iff. split; [lia|].
+  destruct (rank a =? rank c) eqn:E; [|reflexivity]. cbn [andb].
+  assert (rank a =? rank b = true) as Eab by lia. assert (rank b =? rank c = true) as Ebc by lia.
+  rewrite Eab in A2. rewrite Ebc in B2. cbn [andb] in *. eapply blt_negtrans; eassumption.
+Qed.
+
+Lemma precedes_concat_in : forall {A} (gs : list (list A)) g a b, In g gs -> precedes a b g -> precedes a b (concat gs).
+Proof.
+  intros A gs g a b Hg P. apply in_split in Hg as (g1 & g2 & ->).
+  rewrite concat_app. cbn [concat]. apply precedes_app_r, precedes_app_l. exact P.
+Qed.
+
+Lemma precedes_concat_groups : forall {A} (gs : list (list A)) g1 g2 a b,
+  precedes g1 g2 gs -> In a g1 -> In b g2 -> precedes a b (concat gs).
+Proof.
+  intros A gs g1 g2 a b (l1 & l2 & l3 & ->) Ha Hb.
+  rewrite concat_app. cbn [concat]. apply precedes_app_r.
+  rewrite concat_app. cbn [concat].
+  apply precedes_split; [exact Ha|]. apply in_or_app. right. apply in_or_app. left. exact Hb.
+Qed.
+
+Lemma same_origin_less : forall m1 m2, x_origin m1 = x_origin m2 -> dir_lt m1 m2 = true -> less_origin m1 m2 = true.
+Proof.
+  intros m1 m2 E D. rewrite less_origin_rank. unfold rank, is_overname, is_layout. rewrite E, D.
+  rewrite N.eqb_refl. apply orb_true_r.
+Qed.
+
+(* among the mounts, an entry comes before every entry of the same origin beneath it; hypotheses: the two sort keys
+   differ (distinct cleaned mount points), existing targets are closed under containment for this pair, and the
+   mimic roots of the pair are equal or ordered like the directories (true for an oracle closed under ancestors) *)
+Theorem mount_parent_first : forall fs current desired m1 m2,
+  let nc := needed_changes fs current desired in
+  In (Mount, m1) nc -> In (Mount, m2) nc ->
+  x_origin m1 = x_origin m2 -> beneath m2 m1 = true -> with_slash (e_dir m1) <> with_slash (e_dir m2) ->
+  (is_overname m2 || exists_as fs m2 = true -> is_overname m1 || exists_as fs m1 = true) ->
+  (mimic_dir fs m1 = mimic_dir fs m2 \/ blt (mimic_dir fs m1) (mimic_dir fs m2) = true) ->
+  precedes (Mount, m1) (Mount, m2) nc.
+Proof.
+  intros fs current desired m1 m2 nc I1 I2 EO B Hne Hcl Hm.
+  assert (L : less_origin m1 m2 = true) by (apply same_origin_less; [exact EO | apply beneath_dir_lt; assumption]).
+  destruct (is_overname m2 || exists_as fs m2) eqn:X2; [|destruct (is_overname m1 || exists_as fs m1) eqn:X1].
+  3: { (* both need a mimic *)
+    unfold nc, needed_changes in *.
+    apply in_app_or in I1 as [I1 | I1]; [exfalso; eapply mount_not_in_part; exact I1|].
+    apply in_app_or in I2 as [I2 | I2]; [exfalso; eapply mount_not_in_part; exact I2|].
+    apply precedes_app_r.
+    apply in_map_iff in I1 as (a & Ea & Ia). inversion Ea; subst a.
+    apply in_map_iff in I2 as (b & Eb & Ib). inversion Eb; subst b.
+    apply (precedes_map (fun e => (Mount, e))).
+    apply mount_order_In in Ia. apply mount_order_In in Ib.
+    unfold mount_order. apply precedes_app_r.
+    set (dnr := filter (fun e => negb (id_mem (id_of e) (reuse_of current desired))) (isort less_origin (map clean_entry desired))) in *.
+    set (mimics := filter (fun e => negb (is_overname e) && negb (exists_as fs e)) dnr).
+    assert (M1 : In m1 mimics) by (apply filter_In; split; [exact Ia|]; apply orb_false_iff in X1 as [-> ->]; reflexivity).
+    assert (M2 : In m2 mimics) by (apply filter_In; split; [exact Ib|]; apply orb_false_iff in X2 as [-> ->]; reflexivity).
+    set (G := fun d => isort less_origin (filter (fun e => beq (mimic_dir fs e) d) mimics)).
+    set (mdirs := isort blt (nodup_b (map (mimic_dir fs) mimics))).
+    assert (D1 : In (mimic_dir fs m1) mdirs) by (apply isort_In, nodup_b_In, in_map; exact M1).
+    assert (D2 : In (mimic_dir fs m2) mdirs) by (apply isort_In, nodup_b_In, in_map; exact M2).
+    assert (G1 : In m1 (G (mimic_dir fs m1))) by (apply isort_In, filter_In; split; [exact M1 | apply beq_refl]).
+    assert (G2 : In m2 (G (mimic_dir fs m2))) by (apply isort_In, filter_In; split; [exact M2 | apply beq_refl]).
+    change (precedes m1 m2 (concat (map G mdirs))).
+    destruct Hm as [Hm | Hm].
+    - apply (precedes_concat_in _ (G (mimic_dir fs m1))); [apply in_map; exact D1|].
+      apply isort_precedes; [apply less_origin_asym | apply less_origin_negtrans | | | exact L].
+      + apply filter_In; split; [exact M1 | apply beq_refl].
+      + apply filter_In; split; [exact M2 | rewrite Hm; apply beq_refl].
+    - apply (precedes_concat_groups _ (G (mimic_dir fs m1)) (G (mimic_dir fs m2))); [|exact G1 | exact G2].
+      apply precedes_map. apply isort_precedes; [apply blt_asym | apply blt_negtrans | | | exact Hm].
+      + apply nodup_b_In, in_map; exact M1.
+      + apply nodup_b_In, in_map; exact M2. }
+  - (* m2 can be mounted in place, hence m1 too: both in the sorted independent part *)
+    specialize (Hcl eq_refl).
+    unfold nc, needed_changes in *.
+    apply in_app_or in I1 as [I1 | I1]; [exfalso; eapply mount_not_in_part; exact I1|].
+    apply in_app_or in I2 as [I2 | I2]; [exfalso; eapply mount_not_in_part; exact I2|].
+    apply precedes_app_r.
+    apply in_map_iff in I1 as (a & Ea & Ia). inversion Ea; subst a.
+    apply in_map_iff in I2 as (b & Eb & Ib). inversion Eb; subst b.
+    apply (precedes_map (fun e => (Mount, e))).
+    apply mount_order_In in Ia. apply mount_order_In in Ib.
+    unfold mount_order. apply precedes_app_l.
+    apply isort_precedes; [apply less_origin_asym | apply less_origin_negtrans | | | exact L];
+      apply filter_In; split; assumption.
+  - apply independent_before_mimic; assumption.
+Qed.
